@@ -22,6 +22,7 @@ extern "C" void step_save_load() { body_save_load(ck0, ck1); }                  
 #ifdef HFSM2_ENABLE_TRANSITION_HISTORY
 extern "C" void step_history_replay() { body_history_replay(ck0, ck1); }                    // kind, destination
 extern "C" void proof_history_enter() { body_history_enter(); }
+extern "C" void step_history_enter_redirect() { body_history_enter(ck0); }      // destination an entry guard redirects the initial activation to
 extern "C" void step_history_rounds() { body_history_rounds((unsigned) ck0, ck1, ck2, ck3, ck4, ck5); }   // configuration, dest1, dest2, guard state (entry), dest3
 #endif
 #ifdef VM_UTILITY
